@@ -461,6 +461,51 @@ def rule_r7(facts, col):
                     col.ok("C04.R7", key, body.where(bb), "amount == need always yields false (comparison `amount %s need`)" % rel)
 
 
+def rule_r9(facts, col):
+    """the verdict of a read end's wait(need) depends on `need`: with every `amount ? need` comparison of the function forced
+    to its 'enough buffered' outcome, no non-false result is reachable (a verdict that ignores `need` - e.g. tests emptiness
+    only - never tells a reader holding 0 < amount < need that its request cannot be satisfied, or tells it too early)"""
+    for body in verdict_functions(facts):
+        if body.argc < 2 or body.self_adt not in READ_ENDS or body.name not in ("wait", "wait_for_read"):
+            continue
+        forced = {}
+        for bb in sorted(body.reachable(0)):
+            for si, st in enumerate(body.blocks[bb]["stmts"]):
+                if st["k"] != "assign" or st["rv"]["k"] != "bin" or st["rv"]["op"] not in ("Lt", "Le", "Gt", "Ge"):
+                    continue
+                a = peel(body.operand_expr(st["rv"]["a"]), through_try=False)
+                b = peel(body.operand_expr(st["rv"]["b"]), through_try=False)
+                op = st["rv"]["op"]
+                if b.k == "param" and b.idx == 2:
+                    # amount op need : enough buffered means amount >= need
+                    forced[(bb, si)] = op in ("Ge", "Gt") if op != "Gt" else True
+                    forced[(bb, si)] = {"Lt": False, "Le": False, "Ge": True, "Gt": True}[op]
+                elif a.k == "param" and a.idx == 2:
+                    forced[(bb, si)] = {"Lt": True, "Le": True, "Ge": False, "Gt": False}[op]
+        key = "%s:depends-on-need" % body.q
+        # delegation (`fn wait(&self, need) { self.wait_for_read(need) }`) is judged in the callee
+        rets = [peel(e) for _, _, e in assigns_to_return(body)]
+        if rets and all(r.k == "call" and any(peel(x, through_try=False).k == "param" and peel(x, through_try=False).idx == 2 for x in (r.args or []))
+                        and (r.q or "").split("::")[-1] in ("wait", "wait_for_read") for r in rets):
+            col.ok("C04.R9", key, body.where(), "delegates to %s with the same need" % rets[0].q)
+            continue
+        bad_ret = []
+
+        def seen(b2, v, bad_ret=bad_ret):
+            if body.term(b2)["k"] == "return" and v.get(0) is not False:
+                bad_ret.append(b2)
+        r, edges = flag_search(body, [0], stmt_results=forced, on_state=seen)
+        if edges is None:
+            col.silent("C04.R9", key, body.where(), "path search gave up")
+        elif bad_ret:
+            col.bad("C04.R9", key, body.where(bad_ret[0]),
+                    "wait(need) can answer 'this request can never be satisfied' on a path that does not depend on a comparison of the "
+                    "buffered amount with `need` (%d such comparisons found): the verdict is wrong for 0 < amount < need (never told) or "
+                    "for amount >= need (told although satisfied)" % len(forced), {})
+        else:
+            col.ok("C04.R9", key, body.where(), "with amount >= need the verdict is false (%d comparisons)" % len(forced))
+
+
 LOSSY = {"std::cmp::min", "std::cmp::Ord::min", "std::cmp::Ord::clamp"}
 
 
@@ -558,10 +603,12 @@ def run(ctx):
     rule_r3(facts, ctx)
     rule_r4(facts, ctx)
     rule_r6(facts, ctx, cg)
+    rule_r9(facts, ctx)
+    ctx.floor("C04.R9", 2, "ReadStream::wait_for_read and NCReadStream::wait")
     rule_r8(facts, ctx)
     ctx.floor("C04.R8", 1, "provided BlockEOF::eof")
     rule_r7(facts, ctx)
-    ctx.floor("C04.R7", 3, "amount < need in ReadStream::wait_for_read, WriteStream::wait_for_write, NCReadStream::wait")
+    ctx.floor("C04.R7", 2, "amount vs need comparisons in the copy-stream ends (the packet stream is covered by R9 as well)")
     from . import c05
     c05.rule_r1(facts, _Retag5(ctx))
     ctx.floor("C04.R5", 10, "the multithreaded runner acts on the verdict (C05.R1 obligations)")
